@@ -122,6 +122,13 @@ func (fr *Frame) execInstr(in ssa.Instruction) {
 	case *ssa.Next:
 		fr.vals[i] = fr.rangeNext(i)
 	case *ssa.Select:
+		if i.Blocking {
+			var chans []ssa.Value
+			for _, st := range i.States {
+				chans = append(chans, st.Chan)
+			}
+			fr.checkWaitObservesStop(chans, "select")
+		}
 		fr.vc.abstracted("select statement (nondeterministic choice, received values unconstrained)")
 		fr.vals[i] = fr.havocVal(i.Type(), "select")
 	case *ssa.Send:
